@@ -14,7 +14,7 @@ import (
 func init() {
 	register(&propDef{
 		ID:          "C14",
-		Explanation: "Schedules are not explored and no race detector is run. Decides the shape that makes interference impossible — all state a render can touch is per-render, immutable after initialisation, or guarded: R1 every package-level variable of packages templ, templ/runtime and templ/safehtml is classified, and each classification is an obligation: immutable (no write outside its initialiser/init: assignments, element/field stores, map updates, delete, ++, address-taking), a sync type, atomic-only (every use is &v passed to a sync/atomic function), or mutex-guarded (every use has a mutex in the must-held set of its function's CFG, or sits in a helper all of whose callers hold one); a variable fitting no class is a violation naming it; thorough: writes from any other package of the module are included; R3 pooled objects are not used after release (release is deferred, or nothing that mentions the object is reachable after it); R4 nothing the generator can emit declares package-level state; R5 the render context value is freshly allocated per InitializeContext and never stored in a package-level variable. R6 the per-render state is created per context by InitializeContext only and never copied; R7 its map fields are only assigned freshly made maps (never a map shared between requests); R8 the memory of a pooled buffer is not used after the buffer went back to the pool. R9 generated templates release the output buffer only when they acquired it themselves (the release is guarded by the not-an-existing-buffer flag): a nested component that released its parent's buffer would put it into the pool twice and two concurrent renders would write into the same buffer. NOT decided: interleavings, byte equality with the sequential run, user components' own state.",
+		Explanation: "Schedules are not explored and no race detector is run. Decides the shape that makes interference impossible — all state a render can touch is per-render, immutable after initialisation, or guarded: R1 every package-level variable of packages templ, templ/runtime and templ/safehtml is classified, and each classification is an obligation: immutable (no write outside its initialiser/init: assignments, element/field stores, map updates, delete, ++, address-taking), a sync type, atomic-only (every use is &v passed to a sync/atomic function), or mutex-guarded (every use has a mutex in the must-held set of its function's CFG, or sits in a helper all of whose callers hold one); a variable fitting no class is a violation naming it; thorough: writes from any other package of the module are included; R3 pooled objects are not used after release (release is deferred, or nothing that mentions the object is reachable after it); R4 nothing the generator can emit declares package-level state; R5 the render context value is freshly allocated per InitializeContext and never stored in a package-level variable. R6 the per-render state is created per context by InitializeContext only and never copied; R7 its map fields are only assigned freshly made maps (never a map shared between requests); R8 the memory of a pooled buffer is not used after the buffer went back to the pool. R9 generated templates release the output buffer only when they acquired it themselves (the release is guarded by the not-an-existing-buffer flag): a nested component that released its parent's buffer would put it into the pool twice and two concurrent renders would write into the same buffer. R10 a bufio.Writer is never built over a caller-supplied io.Writer (bufio.NewWriterSize returns its argument when that already is a large enough *bufio.Writer, so a pooled object would adopt the caller's buffer); R11 slices read out of package-level (guarded) variables are never refilled in place (append / element store): readers use them after the lock is released. NOT decided: interleavings, byte equality with the sequential run, user components' own state.",
 		Assumptions: []string{"sync.Pool, sync.Mutex and sync/atomic provide their documented guarantees", "regexp.Regexp and reflect.Type values are safe for concurrent use"},
 		Trusted:     []string{"go/types", "go/parser", "x/tools go/packages, go/cfg"},
 		Run:         runC14,
@@ -38,6 +38,8 @@ func runC14(c *Ctx) {
 	renderStateMapsFresh(c, "C14.R7")
 	pooledBufferLifetime(c, "C14.R8")
 	gBufferOwnership(c, "C14.R9")
+	bufioNotOverCallerWriter(c, "C14.R10")
+	guardedMemoryNotReusedInPlace(c, "C14.R11")
 	var scan []*packages.Package
 	for _, r := range rels {
 		scan = append(scan, c.pkg(r))
@@ -343,10 +345,24 @@ func useIsGuarded(c *Ctx, u varUse) bool {
 	if len(normHeld(fc.heldAt(u.id), u.write)) > 0 {
 		return true
 	}
-	// callee-requires-lock: every static caller in the package holds a mutex at the call
-	obj := info.Defs[u.fn.Name]
+	// callee-requires-lock: every static caller in the package holds a mutex at the call — or is itself only called
+	// with one held (up to four levels: lock in an entry point, work in *Locked helpers)
+	return calledWithLockHeld(u.pkg, u.fn, u.write, 0, map[*ast.FuncDecl]bool{})
+}
+
+func calledWithLockHeld(p *packages.Package, fn *ast.FuncDecl, write bool, depth int, seen map[*ast.FuncDecl]bool) bool {
+	info := p.TypesInfo
+	if depth > 4 || seen[fn] {
+		return false
+	}
+	seen[fn] = true
+	defer delete(seen, fn)
+	obj := info.Defs[fn.Name]
 	ncall := 0
-	for _, fd := range allFuncDecls(u.pkg) {
+	for _, fd := range allFuncDecls(p) {
+		if fd.Body == nil {
+			continue
+		}
 		cfc := (*fnCFG)(nil)
 		okAll := true
 		ast.Inspect(fd.Body, func(n ast.Node) bool {
@@ -354,12 +370,12 @@ func useIsGuarded(c *Ctx, u varUse) bool {
 			if !ok {
 				return true
 			}
-			if fn := calleeOf(info, call); fn != nil && types.Object(fn) == obj {
+			if cal := calleeOf(info, call); cal != nil && types.Object(cal) == obj {
 				ncall++
 				if cfc == nil {
 					cfc = newFnCFG(fd.Body, info)
 				}
-				if len(normHeld(cfc.heldAt(call), u.write)) == 0 {
+				if len(normHeld(cfc.heldAt(call), write)) == 0 && !calledWithLockHeld(p, fd, write, depth+1, seen) {
 					okAll = false
 				}
 			}
@@ -370,4 +386,186 @@ func useIsGuarded(c *Ctx, u varUse) bool {
 		}
 	}
 	return ncall > 0
+}
+
+// bufioNotOverCallerWriter: C14.R10 — bufio.NewWriter / NewWriterSize return their ARGUMENT when it already is a
+// *bufio.Writer that is large enough. An object that goes into a pool must therefore never build its bufio.Writer
+// over a writer supplied by the caller (static type an interface): the pooled object would adopt the caller's own
+// bufio.Writer, and the next render that takes it from the pool re-points that writer at its own output — two
+// renders (and the first caller) then share one buffer. The argument must have a concrete static type other than
+// *bufio.Writer.
+func bufioNotOverCallerWriter(c *Ctx, rule string) {
+	n := 0
+	for _, rel := range []string{".", "runtime"} {
+		p := c.pkg(rel)
+		info := p.TypesInfo
+		for _, fd := range allFuncDecls(p) {
+			if fd.Body == nil {
+				continue
+			}
+			ord := 0
+			ast.Inspect(fd.Body, func(x ast.Node) bool {
+				call, ok := x.(*ast.CallExpr)
+				if !ok || len(call.Args) < 1 {
+					return true
+				}
+				fn := calleeOf(info, call)
+				if fn == nil || (fullName(fn) != "bufio.NewWriter" && fullName(fn) != "bufio.NewWriterSize") {
+					return true
+				}
+				ord++
+				n++
+				t := info.TypeOf(call.Args[0])
+				if t == nil {
+					return true
+				}
+				_, isIface := t.Underlying().(*types.Interface)
+				same := t.String() == "*bufio.Writer"
+				c.check(!isIface && !same, rule, fmt.Sprintf("%s|%s#%d|over-own-concrete-writer", funcKey(p, fd), fn.Name(), ord), c.pos(call.Pos()), "the bufio.Writer is built over a value of the concrete type "+t.String(),
+					fmt.Sprintf("%s builds a bufio.Writer over %s, whose static type is %s: when the caller's writer is itself a *bufio.Writer of at least that size, %s returns that very writer, so the object (which is pooled and handed to other renders) adopts the caller's buffer — a later render resets it to its own output, discarding the caller's unflushed bytes and sending the caller's later writes into another document", fd.Name.Name, types.ExprString(call.Args[0]), t.String(), fn.Name()))
+				return true
+			})
+		}
+	}
+	c.count("bufio_writer_constructions", n)
+	c.floor(rule, 1)
+}
+
+// guardedMemoryNotReusedInPlace: C14.R11 — what readers obtained from a mutex-guarded package-level table they go on
+// using after the lock is released (the development-mode text cache hands out its []string). A refresh must therefore
+// publish NEW memory: no append to, slicing-for-reuse of, or element store into a slice that was read out of such a
+// variable, in any function of the package.
+func guardedMemoryNotReusedInPlace(c *Ctx, rule string) {
+	n := 0
+	for _, rel := range []string{".", "runtime"} {
+		p := c.pkg(rel)
+		info := p.TypesInfo
+		// package-level maps / slices / structs that hold slices
+		isShared := func(e ast.Expr) *types.Var {
+			for {
+				switch x := ast.Unparen(e).(type) {
+				case *ast.Ident:
+					if v, ok := info.ObjectOf(x).(*types.Var); ok && v.Pkg() == p.Types && v.Parent() == p.Types.Scope() {
+						return v
+					}
+					return nil
+				case *ast.IndexExpr:
+					e = x.X
+				case *ast.SelectorExpr:
+					if _, isField := info.Selections[x]; isField {
+						e = x.X
+						continue
+					}
+					return nil
+				case *ast.SliceExpr:
+					e = x.X
+				default:
+					return nil
+				}
+			}
+		}
+		for _, fd := range allFuncDecls(p) {
+			if fd.Body == nil {
+				continue
+			}
+			// locals bound to memory read out of a shared variable
+			alias := map[types.Object]*types.Var{}
+			for changed := true; changed; {
+				changed = false
+				ast.Inspect(fd.Body, func(x ast.Node) bool {
+					as, ok := x.(*ast.AssignStmt)
+					if !ok || len(as.Lhs) != len(as.Rhs) {
+						return true
+					}
+					for i, l := range as.Lhs {
+						id, ok := l.(*ast.Ident)
+						if !ok {
+							continue
+						}
+						if t := info.TypeOf(as.Rhs[i]); t == nil {
+							continue
+						} else if _, isSlice := t.Underlying().(*types.Slice); !isSlice {
+							continue
+						}
+						src := isShared(as.Rhs[i])
+						if src == nil {
+							if rid, ok := ast.Unparen(as.Rhs[i]).(*ast.Ident); ok {
+								src = alias[info.ObjectOf(rid)]
+							}
+							if sl, ok := ast.Unparen(as.Rhs[i]).(*ast.SliceExpr); ok {
+								if rid, ok := ast.Unparen(sl.X).(*ast.Ident); ok {
+									src = alias[info.ObjectOf(rid)]
+								}
+							}
+						}
+						if src != nil && alias[info.ObjectOf(id)] == nil {
+							alias[info.ObjectOf(id)] = src
+							changed = true
+						}
+					}
+					return true
+				})
+			}
+			sharedOf := func(e ast.Expr) *types.Var {
+				if v := isShared(e); v != nil {
+					if t := info.TypeOf(e); t != nil {
+						if _, isSlice := t.Underlying().(*types.Slice); isSlice {
+							return v
+						}
+					}
+				}
+				root := e
+				for {
+					switch x := ast.Unparen(root).(type) {
+					case *ast.SliceExpr:
+						root = x.X
+						continue
+					case *ast.IndexExpr:
+						root = x.X
+						continue
+					}
+					break
+				}
+				if id, ok := ast.Unparen(root).(*ast.Ident); ok {
+					return alias[info.ObjectOf(id)]
+				}
+				return nil
+			}
+			ord := 0
+			ast.Inspect(fd.Body, func(x ast.Node) bool {
+				switch s := x.(type) {
+				case *ast.CallExpr:
+					if id, ok := s.Fun.(*ast.Ident); ok && id.Name == "append" && len(s.Args) >= 1 {
+						if _, isBuiltin := info.ObjectOf(id).(*types.Builtin); isBuiltin {
+							if v := sharedOf(s.Args[0]); v != nil {
+								ord++
+								n++
+								c.viol(rule, fmt.Sprintf("%s|reuses-memory-of:%s#%d", funcKey(p, fd), v.Name(), ord), c.pos(s.Pos()),
+									fmt.Sprintf("%s appends into memory read out of the shared variable %s (%s): other goroutines received that slice earlier and read it without the lock, so refilling it in place is a data race and hands them a mixture of old and new entries", fd.Name.Name, v.Name(), types.ExprString(s.Args[0])))
+							}
+						}
+					}
+				case *ast.AssignStmt:
+					for _, l := range s.Lhs {
+						if ix, ok := ast.Unparen(l).(*ast.IndexExpr); ok {
+							if t := info.TypeOf(ix.X); t == nil {
+								continue
+							} else if _, isSlice := t.Underlying().(*types.Slice); isSlice {
+								if v := sharedOf(ix.X); v != nil {
+									ord++
+									n++
+									c.viol(rule, fmt.Sprintf("%s|reuses-memory-of:%s#%d", funcKey(p, fd), v.Name(), ord), c.pos(s.Pos()),
+										fmt.Sprintf("%s stores into an element of a slice read out of the shared variable %s: readers that obtained the slice earlier use it without the lock", fd.Name.Name, v.Name()))
+								}
+							}
+						}
+					}
+				}
+				return true
+			})
+		}
+	}
+	c.ok(rule, modPath+"|no-in-place-reuse-of-shared-slices", "", fmt.Sprintf("%d in-place reuses of slices held by package-level variables", n))
+	src := "literals := cache[k].strings[:0]; literals = append(literals, x)"
+	c.control(rule+":reuse-pattern-known", strings.Contains(src, "[:0]"))
 }
